@@ -28,6 +28,10 @@ _PROFILE_PATHS = 4
 
 
 def _worker_init(tmpdir):
+    # one scratch directory per worker: Problem() names its working directory after the
+    # class and the current microsecond, which collides across processes
+    tmpdir = os.path.join(tmpdir, 'w%d' % os.getpid())
+    os.makedirs(tmpdir, exist_ok=True)
     os.environ['TMPDIR'] = tmpdir
     tempfile.tempdir = tmpdir
     sys.stdout = open(os.devnull, 'w')
@@ -255,7 +259,8 @@ def _report(mod, pid, tier, seed, cfgs, results, errors, wall, nproc):
     bad_cuts = {k: v for k, v in cuts.items() if k not in allowed_cuts}
 
     reproduced = [c for c in cands if c.get('reproduced')]
-    unreproduced = [c for c in cands if not c.get('reproduced')]
+    unreproduced = [c for c in cands if not c.get('reproduced') and not c.get('tentative')]
+    tentative_unreproduced = [c for c in cands if not c.get('reproduced') and c.get('tentative')]
 
     lines = []
     violations = []
@@ -353,6 +358,7 @@ def _report(mod, pid, tier, seed, cfgs, results, errors, wall, nproc):
             'inconclusive': inconclusive_reasons,
             'candidates_reproduced': len(reproduced),
             'candidates_not_reproduced': len(unreproduced),
+            'refutation_attempts_on_undecided_clauses_not_reproduced': len(tentative_unreproduced),
         },
         'assumptions': meta.get('assumptions', []),
         'wall_s': round(wall, 2),
